@@ -62,4 +62,40 @@ theorem add32_correct (x y c : Nat) (hx : x < 4294967296) (hy : y < 4294967296) 
     by_cases bs : ((x + y) % 4294967296 + c) % 4294967296 / 2147483648 % 2 = 1 <;>
     simp only [bx, by_, bs, decide_true, decide_false, Bool.true_and, Bool.false_and, Bool.and_true, Bool.and_false, Bool.true_or, Bool.false_or, Bool.or_true, Bool.or_false, Bool.xor_true, Bool.not_true, Bool.not_false, if_true, if_false, Bool.false_eq_true, decide_eq_true_eq, Bool.true_xor, Bool.false_xor, Bool.xor_false] <;> omega
 
+/-- `Div32` panics as upstream: divide error on y = 0, overflow error on 0 < y ≤ hi -/
+theorem div32_panics (hi lo y : Nat) :
+    (y = 0 → div32 hi lo y = .divideError) ∧ (y ≠ 0 → y ≤ hi → div32 hi lo y = .overflowError) := by
+  refine ⟨fun h => ?_, fun h1 h2 => ?_⟩
+  · unfold div32; rw [if_pos h]
+  · unfold div32; rw [if_neg h1, if_pos h2]
+
+/-- `Rem32` panics (the runtime's divide error of `hi % y`) when y = 0 -/
+theorem rem32_panics (hi lo y : Nat) (h : y = 0) : rem32 hi lo y = .divideError := by
+  unfold rem32; rw [if_pos h]
+
+theorem corrLoop_last (n q rhat yn1 yn0 un : Nat) (h : 65536 ≤ rhat + yn1) (h2 : rhat + yn1 < 4294967296) :
+    corrLoop (n + 1) q rhat yn1 yn0 un ≠ none := by
+  have e : u32 (rhat + yn1) = rhat + yn1 := Nat.mod_eq_of_lt h2
+  unfold corrLoop
+  by_cases hc : q ≥ 65536 ∨ u32 (q * yn0) > u32 (u32 (65536 * rhat) + un)
+  · rw [if_pos hc]
+    simp only [e]
+    rw [if_pos h]; simp
+  · rw [if_neg hc]; simp
+
+/-- each correction loop of `Div32` leaves within two decrements once the divisor is normalised (yn1 ≥ 2^15):
+    the model's loop budget is never exhausted -/
+theorem corrLoop_terminates (q rhat yn1 yn0 un : Nat) (hy : 32768 ≤ yn1) (hy' : yn1 < 65536) (hr : rhat < 65536) :
+    corrLoop loopFuel q rhat yn1 yn0 un ≠ none := by
+  have e : u32 (rhat + yn1) = rhat + yn1 := Nat.mod_eq_of_lt (by omega)
+  unfold loopFuel corrLoop
+  by_cases hc : q ≥ 65536 ∨ u32 (q * yn0) > u32 (u32 (65536 * rhat) + un)
+  · rw [if_pos hc]
+    simp only [e]
+    by_cases hb : rhat + yn1 ≥ 65536
+    · rw [if_pos hb]; simp
+    · rw [if_neg hb]
+      exact corrLoop_last 1 _ _ _ _ _ (by omega) (by omega)
+  · rw [if_neg hc]; simp
+
 end GV.Proofs.Bits32
